@@ -648,6 +648,17 @@ def bulk_tags(ctx, f, sw, arms, buf):
                         cf = F.fns.get(g.crate + "::" + c_[2])
                         if cf is not None and cf.built and contains(cf.built.expr_of_local(0), lambda y: y[0] == "bin" and y[1].startswith("Add")):
                             offs += list(c_[5])
+            if not offs:
+                # the loop form: `for (i, v) in it.enumerate() { out.push((i + offset, v)) }`
+                eloc = (blk, len(gb.blocks[blk]["stmts"]))
+                for loc_, s_ in gb.iter_stmts(sorted(region)):
+                    if s_["k"] == "assign" and s_["rv"]["k"] == "bin" and str(s_["rv"]["op"]).startswith("Add"):
+                        l_, r_ = gb.expr_of_op(s_["rv"]["l"]), gb.expr_of_op(s_["rv"]["r"])
+                        from_enum = lambda e_: contains(e_, lambda y: y[0] == "call" and y[4] == eloc)
+                        if from_enum(l_) and not from_enum(r_):
+                            offs.append(r_)
+                        elif from_enum(r_) and not from_enum(l_):
+                            offs.append(l_)
             if what in ("new", "Reset"):
                 nz = [o for o in offs if not is_const_int(o, 0)]
                 if nz:
